@@ -531,7 +531,7 @@ fn probes(ctx: &Ctx) {
 
 pub fn run(ctx: &Ctx) -> i32 {
     probes(ctx);
-    let n = ctx.tier.pick(3_000u64, 300_000u64);
+    let n = ctx.tier.pick(3_000u64, 3_000_000u64);
     fw::par_for(n, 32, |i| {
         let mut rng = Rng::for_case(ctx.seed, 0xC09, i);
         let p = gen(&mut rng);
